@@ -113,8 +113,8 @@ class State:
         closed = not _gem.interior(P, gem.epsilon)
         if closed:
             ctx.count("closed_simplex_calls")
-        v0, g0 = orig(gem, P.copy(), A, True)
-        v0, g0 = _val(v0), np.asarray(g0)
+        v0, g0_obj = orig(gem, P.copy(), A, True)
+        v0, g0 = _val(v0), np.array(g0_obj, dtype=float, copy=True)
         # finiteness on the closed simplex
         ctx.count("bound:finite")
         if not (math.isfinite(value) and math.isfinite(v0) and np.all(np.isfinite(g0))):
@@ -208,6 +208,13 @@ class State:
             if np.any(g0[:, empty_cols] != 0):
                 ctx.violation("empty-cluster-gradient", "empty-cluster-grad/" + mech,
                               observed={"empty_columns": empty_cols, "grad": g0[:, empty_cols][:4], "P": P}, expected="zeros")
+        # the gradient handed back by the first call belongs to the caller: the later calls (same shapes among them)
+        # must not have rewritten it
+        ctx.count("rel:earlier_gradient_intact")
+        if not np.array_equal(np.asarray(g0_obj), g0, equal_nan=True):
+            ctx.violation("gradient-ownership", "gradient-buffer-overwritten-by-later-call/" + mech,
+                          observed={"max_abs_change": float(np.nanmax(np.abs(np.asarray(g0_obj) - g0))), "shape": list(g0.shape)},
+                          expected="the returned gradient keeps its values")
         if compared and N >= 2:
             ctx.distinct(cname, bool(gem.ovo), P.shape, P.tobytes().hex()[:64])
             ctx.sample({"class": cname, "ovo": bool(gem.ovo), "shape": [N, K], "score": v0, "relations": compared,
